@@ -67,11 +67,13 @@ def rand_custom(rng, ascii_only):
         if k < 0.35:
             return rand_text(rng, ascii_only)
         if k < 0.6:
-            return rng.choice([0, 1, 7, 42, 2 ** 31, 2 ** 32 - 1, 123456])
+            return rng.choice([0, 1, 7, 42, 2 ** 31, 2 ** 32 - 1, 123456,
+                               # integers that a detour through f64 would round, and the i64 / u64 edges
+                               2 ** 53, 2 ** 53 + 1, 9007199254740993, 2 ** 63 - 1, 2 ** 63, 2 ** 64 - 1, 20260921141320123, -9223372036854775808, -9007199254740993])
         if k < 0.7:
             return rng.choice([True, False])
         if k < 0.8:
-            return rng.choice([2.5, 0.5, 1.25, -5, -1.5, 2024.5])
+            return rng.choice([2.5, 0.5, 1.25, -5, -1.5, 2024.5, 7.0, 100.0, -3.0])
         if k < 0.9:
             return None
         return rng.choice(["0051", "000", "v1.2", "Feature/API"])
